@@ -7,6 +7,7 @@ package main
 import (
 	"bufio"
 	"fmt"
+	"reflect"
 	"sort"
 	"strings"
 
@@ -377,6 +378,13 @@ func genDij(w *bufio.Writer, r *rng, id int, maxN int, palette string) {
 		}
 		g = rv
 	}
+	if exhIdx < 0 && d.n > 1 && r.chance(1, 4) {
+		// an earlier search of the same graph value from another source must leave nothing behind
+		func() {
+			defer func() { recover() }()
+			dijkstraCall(g, (src+1+r.intn(d.n-1))%d.n)
+		}()
+	}
 	fmt.Fprintf(w, "scn dij %d palette=%s\n%s\nsrc %d\n", id, palette, d.line(), src)
 	var pops []string
 	am.VerifSetPopHook(func(v interface{}) { pops = append(pops, vid(v)) })
@@ -406,15 +414,22 @@ func dijkstraCall(g *am.VerifGraph, src int) (map[interface{}]int, map[interface
 	return dist, prev
 }
 
+// sharedEdgeTo: one predecessor map per search result, handed to every EdgeToPath call on that result (reading a path
+// must not consume the map)
+var sharedEdgeTo struct {
+	of map[interface{}]interface{}
+	et map[interface{}]interfaceVertex
+}
+
 func edgeToPath(g *am.VerifGraph, t int, prev map[interface{}]interface{}) []interface{} {
-	edgeTo := map[interface{}]interface{}{}
-	for k, v := range prev {
-		edgeTo[k] = v
+	if sharedEdgeTo.et == nil || reflect.ValueOf(sharedEdgeTo.of).Pointer() != reflect.ValueOf(prev).Pointer() {
+		et := make(map[interface{}]interfaceVertex, len(prev))
+		for k, v := range prev {
+			et[k] = v
+		}
+		sharedEdgeTo.of, sharedEdgeTo.et = prev, et
 	}
-	et := make(map[interface{}]interfaceVertex, len(edgeTo))
-	for k, v := range edgeTo {
-		et[k] = v
-	}
+	et := sharedEdgeTo.et
 	res := g.EdgeToPath(hv{ID: t, Tag: 1}, et)
 	out := make([]interface{}, len(res))
 	for i, v := range res {
